@@ -116,8 +116,9 @@ extern struct vf_input vfin;
 static const short vf_tpl[VF_NLINES][VF_TPLMAX] = VF_TPL;
 static const signed char vf_kind[VF_NLINES] = VF_KINDS;
 /* geometry the template predicts, per line: number of leading blank bytes, length of the text left by
- * trimming, offset (within that text) and length of the part the parser copies with strdup (-1: no copy) */
-static const signed char vf_geo[VF_NLINES][4] = VF_GEO;
+ * trimming, offset (within that text) and length of the part the parser copies with strdup (-1: no copy),
+ * alternative copy length (-1: none; blanks before '>' may or may not be part of the copy) */
+static const signed char vf_geo[VF_NLINES][5] = VF_GEO;
 
 static char vf_lines[VF_NLINES][VF_LMAX];
 static int vf_len[VF_NLINES];
@@ -299,6 +300,7 @@ static char *vf_strdup(const char *s) {
         return p;
     }
     int off = vf_geo[line][0] + vf_geo[line][2], want = vf_geo[line][3];
+    if (vf_geo[line][4] >= 0 && n == (size_t)vf_geo[line][4]) want = vf_geo[line][4];
     bool same = want >= 0 && n == (size_t)want;
     for (int i = 0; i < want; i++) same = same && s[i] == vf_lines[line][off + i];
     VF_ASSERT(same, FP "env.linecopy: the line copy is the trimmed line without its brackets, as the template predicts");
